@@ -298,6 +298,13 @@ def broadcast_to(x, shape, chunks=None, meta=None):
     if ndim_new < 0 or any(new != old for new, old in zip(shape[ndim_new:], x.shape) if old != 1):
         raise ValueError(f"cannot broadcast shape {x.shape} to shape {shape}")
 
+    # An axis of length 1 may come as one element next to empty blocks (a slice
+    # that ends on a block boundary leaves those): it is "the" block every
+    # output block reads, so gather it into one.
+    unit_axes = {ax: (1,) for ax, (bd, n) in enumerate(zip(x.chunks, x.shape)) if n == 1 and bd != (1,)}
+    if unit_axes:
+        x = x.rechunk(unit_axes)
+
     if chunks is None:
         chunks = tuple((s,) for s in shape[:ndim_new]) + tuple(
             bd if old > 1 else (new,) for bd, old, new in zip(x.chunks, x.shape, shape[ndim_new:])
